@@ -549,7 +549,11 @@ func runParse(c *ctx, prop string) error {
 	}
 	probes := c.known.probeDocuments()
 	for i := 0; i < n; i++ {
-		o := &gen.Opts{R: rng, Str: parseStr, Key: gen.DefaultKey, UntypedExotic: true, TypeErrors: typeErrors, MaxGroupDepth: 4, MaxMapSize: 16, Hist: c.res.Hist,
+		keyFn := gen.DefaultKey
+		if prop == "C13" {
+			keyFn = gen.KeyWithControls // C13 quantifies over every byte string; C03 / C09 exclude control characters
+		}
+		o := &gen.Opts{R: rng, Str: parseStr, Key: keyFn, UntypedExotic: true, TypeErrors: typeErrors, MaxGroupDepth: 4, MaxMapSize: 16, Hist: c.res.Hist,
 			GroupBias: 8}
 		var src []byte
 		style := "given"
